@@ -29,8 +29,13 @@ func (f *BasePathFile) Chdir() error {
 	}
 
 	err := f.baseFile.Chdir()
+	if err != nil {
+		return f.vfs.FromPathError(err)
+	}
 
-	return f.vfs.FromPathError(err)
+	_ = f.vfs.SetCurDir(f.absPath)
+
+	return nil
 }
 
 // Chmod changes the mode of the file to mode.
@@ -86,7 +91,7 @@ func (f *BasePathFile) Fd() uintptr {
 
 // Name returns the link of the file as presented to Open.
 func (f *BasePathFile) Name() string {
-	return f.vfs.FromBasePath(f.baseFile.Name())
+	return f.name
 }
 
 // Read reads up to len(b) bytes from the MemFile.
